@@ -88,7 +88,9 @@ static uintptr_t policy_map(size_t length, _Bool unaligned, size_t sb)
 {
 	__CPROVER_assert(frgv_held_locks == 0, "C05: Policy::map called while a pool lock is held");
 	frgv_map_calls++;
-#ifndef MAP_SUCCEEDS          /* MAP_SUCCEEDS: the success path only (keeps every address concrete); map failure is covered by the runs without it */
+#if defined(MAP_FAILS)        /* MAP_FAILS: the failure path only */
+	frgv_map_failed++; return 0;
+#elif !defined(MAP_SUCCEEDS)  /* MAP_SUCCEEDS: the success path only (keeps every address concrete) */
 	if (nondet_bool()) { frgv_map_failed++; return 0; }
 #endif
 	size_t off = 0;
